@@ -58,6 +58,7 @@ def run(ctx):
         _topokeep(ctx, cfg, prog, mod)
         _rewrap(ctx, cfg, prog, mod)
         _optpass(ctx, cfg, prog, mod)
+        _buildtopo(ctx, cfg, prog, mod)
         import idkeep
         ctx.rule('IDENT', 'wrapped vertices keep the UUID and data of the input vertex they replace')
         idkeep.check(ctx, cfg, prog, mod, 'IDENT',
@@ -144,6 +145,60 @@ def _optpass(ctx, cfg, prog, mod):
                    '(de-duplication, ordering, retry policy matter most where wrapping creates coincident points)' % missing),
                site='%s:%d' % (b.file, t.line))
     ctx.floor('constructor calls in build_with_kernel', 2, n, cfg)
+
+
+def _buildtopo(ctx, cfg, prog, mod):
+    """BUILDTOPO: the insertion layer wraps a perturbed retry vertex again (REWRAP) - but only with the topology the
+    triangulation under construction knows.  A builder arm that canonicalises the input and then hands it to a
+    constructor must therefore give that constructor the topology as well (an argument other than the vertex slice
+    derives from the GlobalTopology value / its model); recording the topology on the finished triangulation
+    afterwards leaves every retry during the bulk build unwrapped."""
+    import valueflow
+    ctx.rule('BUILDTOPO', 'a builder arm that constructs from canonicalised vertices hands the topology to the constructor')
+    b = prog.bodies.get(BUILD_WK)
+    if b is None:
+        return
+    al = mod.aliases(BUILD_WK)
+    n = 0
+    for bb, t in b.calls():
+        name = t.resolved or t.callee or ''
+        if name not in prog.bodies or t.dest is None or not t.dest.is_local():
+            continue
+        if not b.locals[t.dest.local].startswith('std::result::Result<core::delaunay_triangulation::DelaunayTriangulation<'):
+            continue
+        vert_args = []
+        other = []
+        for o in t.args:
+            if o.place is None:
+                continue
+            ty = b.locals[o.place.local]
+            (vert_args if 'core::vertex::Vertex<' in ty else other).append(o)
+        from_canon = any(x[0] == 'call' and (x[1].resolved or x[1].callee) == CANON
+                         for o in vert_args for x in valueflow.sources(b, al, o.place.local))
+        if not from_canon:
+            continue
+        n += 1
+        knows = False
+        for o in other:
+            tt = al.operand_target(o)
+            if tt is not None and tt[0] == 1 and not tt[1]:
+                knows = True          # the whole builder
+            for x in valueflow.sources(b, al, o.place.local):
+                if x[0] == 'call' and (x[1].callee or x[1].resolved or '').rsplit('::', 1)[-1] == 'model':
+                    knows = True
+            for (_, didx, node) in b.defs.get(o.place.local, []):
+                if didx != 'term' and node.rv.k == 'agg' and 'GlobalTopology' in str(node.rv.raw.get('adt', '')):
+                    knows = True
+            if 'GlobalTopology' in b.locals[o.place.local] or 'ToroidalModel' in b.locals[o.place.local] or \
+                    'GlobalTopologyModel' in b.locals[o.place.local]:
+                knows = True
+        ctx.ob('BUILDTOPO', '%s|%s' % (BUILD_WK, name.rsplit('::', 1)[-1]), cfg, knows,
+               'constructor %s built from canonicalised vertices %s' % (name.rsplit('::', 1)[-1],
+                   'receives the topology' if knows else
+                   'does not receive the topology (it is recorded on the result afterwards): a vertex that the bulk build re-creates '
+                   'at perturbed coordinates is not wrapped again and can be stored outside the half-open box'),
+               site='%s:%d' % (b.file, t.line))
+    ctx.floor('constructor calls fed by canonicalize_vertices', 1, n, cfg)
 
 
 TOPO_WRITERS = {'set_global_topology': 'the documented setter'}
